@@ -27,6 +27,7 @@ struct vf_check {
   void (*replay)(const char* tag, const uint8_t* data, size_t len); /* run ONE case verbosely */
   void (*finish)(void);             /* parent, after all workers: cross-worker checks (may vf_fail) */
   int state_bits;                   /* log2 capacity of the per-worker distinct-state set (0 = 16) */
+  int states_counter;               /* if non-zero: evidence `states` = counter slot (states_counter - 1): states distinct by construction */
 };
 extern struct vf_check vf_the_check;
 
